@@ -445,8 +445,8 @@ class FakeStream(object):
         if self.closed:
             raise IOError("stream is closed")
         resp = json.loads(data)
-        if resp.get("status") == "error" and not self.k.blocked:
-            self.k.reasons.append(str(resp.get("reason")))
+        if resp.get("status") == "error" and not getattr(self.k, "blocked", False) and hasattr(self.k, "reasons"):
+            self.k.reasons.append(str(resp.get("reason")))      # (the live kernel of harness/live.py keeps no such list)
         cid = self._cid.decode() if isinstance(self._cid, bytes) else str(self._cid)
         line = "o rep %s %s %s %s %s" % (cid, encj(resp.get("id")),
                                          resp.get("status"), resp.get("errno", "-") if resp.get("status") == "error" else "-",
